@@ -186,6 +186,15 @@ pub fn run(cli: &Cli, rep: &Report) {
         for b in ALL_BCJ {
             let start = 4096 * 16;
             cases.push(Case { dir: Dir::In { how: RefEnc::Xz { check: 1, pre: vec![Filt::Bcj(b, start)] } }, opts: o, input: input.clone() });
+            if is_shape || ii % 7 == 0 {
+                // the smallest start offsets each filter's alignment allows (1x, 3x the alignment) and the largest, in
+                // both directions: what one side writes into / accepts from the block header must suit the other
+                let a = b.alignment();
+                for start in [a, 3 * a, 0u32.wrapping_sub(a)] {
+                    cases.push(Case { dir: Dir::In { how: RefEnc::Xz { check: 1, pre: vec![Filt::Bcj(b, start)] } }, opts: o, input: input.clone() });
+                    cases.push(Case { dir: Dir::Out { cont: Container::Xz { check: 1, block: None, filters: vec![Filt::Bcj(b, start)] }, ops: vec![] }, opts: o, input: input.clone() });
+                }
+            }
             cases.push(Case { dir: Dir::In { how: RefEnc::RawLzma2 { pre: vec![Filt::Bcj(b, 0)] } }, opts: o, input: input.clone() });
         }
         if is_shape {
